@@ -451,18 +451,24 @@ func checkC20(c *mc.Ctx) {
 	}
 	streams := c19Streams(c.Seed)
 	streams = append(streams, &Stream{Name: "big-payloads", Bytes: BigPayloadStream(c.Seed)}, MultiSectionStream(c.Seed))
-	for _, st := range streams {
+	for _, st0 := range streams {
 		for _, cfg := range []struct {
 			auto bool
 			opt  string
-		}{{false, ""}, {true, ""}, {false, "skipper"}, {true, "skipper"}, {true, "parser"}} {
+			k    int // packet size 188+k
+		}{{false, "", 0}, {true, "", 0}, {false, "skipper", 0}, {true, "skipper", 0}, {true, "parser", 0}, {false, "", 16}, {true, "", 4}} {
 			auto, optName := cfg.auto, cfg.opt
+			st := st0
+			if cfg.k > 0 {
+				st = &Stream{Name: fmt.Sprintf("%s@%d", st0.Name, 188+cfg.k), Bytes: enlarge(st0.Bytes, cfg.k)}
+			}
+			size := 188 + cfg.k
 			// the options of the Demuxer survive a Rewind: a skipper that removes every packet with an odd
 			// continuity counter or of the null PID, a parser that replaces the data of the PAT
 			mk := func() *astits.Demuxer {
 				var opts []func(*astits.Demuxer)
 				if !auto {
-					opts = append(opts, astits.DemuxerOptPacketSize(188))
+					opts = append(opts, astits.DemuxerOptPacketSize(size))
 				}
 				switch optName {
 				case "skipper":
